@@ -1,0 +1,223 @@
+//go:build verif
+
+// Verification shim for property C13 (retries, idempotence, speculative execution).
+// Add-only, compiled only with the build tag "verif".  It lets an external harness drive the real
+// queryExecutor (executeQuery / speculate / run / do) with a real *Query or *Batch whose `execute`
+// step is scripted, a scripted host iterator and a hand-built connection-pool table, so that the
+// outcome of every attempt is chosen by the harness and no network is needed.  Everything else
+// (attempt metrics, retry policies, idempotence gate, speculation, Mark calls) is the driver's own code.
+
+package gocql
+
+import (
+	"context"
+	"fmt"
+	"net"
+
+	"github.com/gocql/gocql/internal/streams"
+)
+
+// VerifC13Host is one entry offered by the scripted host iterator.
+type VerifC13Host struct {
+	ID      int  // harness-level host identity (reported back in callbacks)
+	InfoNil bool // SelectedHost.Info() returns nil
+	Down    bool // host state is NodeDown
+	NoPool  bool // the session has no connection pool for the host
+	NoConn  bool // the pool has no usable connection (Pick returns nil)
+}
+
+// VerifC13Script describes one scripted execution.
+type VerifC13Script struct {
+	Hosts           []VerifC13Host
+	Batch           bool // use a *Batch instead of a *Query
+	Idempotent      bool
+	Retry           RetryPolicy                // may be nil
+	Spec            SpeculativeExecutionPolicy // nil: leave the default (NonSpeculativeExecution)
+	InitialAttempts int                        // attempts already recorded in the query metrics (earlier pages / executions)
+	Consistency     Consistency
+	Ctx             context.Context // nil: none set on the query
+	Direct          bool            // call queryExecutor.do directly instead of executeQuery
+
+	// Execute is the scripted attempt: host is the ID of the host the connection belongs to, cons the
+	// query's consistency at that moment.  It returns the attempt's error (nil: success) and whether
+	// the host stays usable afterwards (false: its pool is closed before Execute returns).
+	Execute func(ctx context.Context, host int, cons Consistency) (err error, still bool)
+	// OnPick is called for every call of the host iterator (host = -1 when it returns nil).
+	OnPick func(host int)
+	// OnMark is called for every SelectedHost.Mark call.
+	OnMark func(host int, err error)
+}
+
+// VerifC13Result is what the executor handed back.
+type VerifC13Result struct {
+	Err         error
+	Host        int // ID of Iter.Host(), -1 if none
+	Attempts    int // q.Attempts() afterwards
+	Consistency Consistency
+	ExecErr     error // second return value of executeQuery
+	// AttemptsNow reads q.Attempts() again (executions of a speculative query may outlive executeQuery)
+	AttemptsNow func() int
+}
+
+type verifC13Query struct {
+	ExecutableQuery // the real *Query or *Batch: every method except the two below is the driver's
+	s               *VerifC13Script
+	ids             map[*HostInfo]int
+	pools           map[*HostInfo]*hostConnPool
+}
+
+func (v *verifC13Query) execute(ctx context.Context, conn *Conn) *Iter {
+	id := v.ids[conn.host]
+	err, still := v.s.Execute(ctx, id, v.GetConsistency())
+	if !still {
+		if p := v.pools[conn.host]; p != nil {
+			p.mu.Lock()
+			p.closed = true
+			p.mu.Unlock()
+		}
+	}
+	return &Iter{err: err}
+}
+
+func (v *verifC13Query) withContext(ctx context.Context) ExecutableQuery {
+	return &verifC13Query{ExecutableQuery: v.ExecutableQuery.withContext(ctx), s: v.s, ids: v.ids, pools: v.pools}
+}
+
+type verifC13Selected struct {
+	info *HostInfo
+	id   int
+	s    *VerifC13Script
+}
+
+func (h *verifC13Selected) Info() *HostInfo { return h.info }
+func (h *verifC13Selected) Mark(err error) {
+	if h.s.OnMark != nil {
+		h.s.OnMark(h.id, err)
+	}
+}
+
+type verifC13Policy struct {
+	next NextHost
+}
+
+func (p *verifC13Policy) AddHost(*HostInfo)                   {}
+func (p *verifC13Policy) RemoveHost(*HostInfo)                {}
+func (p *verifC13Policy) HostUp(*HostInfo)                    {}
+func (p *verifC13Policy) HostDown(*HostInfo)                  {}
+func (p *verifC13Policy) SetPartitioner(string)               {}
+func (p *verifC13Policy) KeyspaceChanged(KeyspaceUpdateEvent) {}
+func (p *verifC13Policy) Init(*Session)                       {}
+func (p *verifC13Policy) IsLocal(*HostInfo) bool              { return true }
+func (p *verifC13Policy) Pick(ExecutableQuery) NextHost       { return p.next }
+
+// VerifC13Run builds the fixtures for the script and runs the real executor on it.
+func VerifC13Run(s *VerifC13Script) VerifC13Result {
+	ids := map[*HostInfo]int{}
+	pools := map[*HostInfo]*hostConnPool{}
+	pcp := &policyConnPool{hostConnPools: map[string]*hostConnPool{}}
+	sel := make([]SelectedHost, len(s.Hosts))
+	// host used only to pre-load the query metrics with InitialAttempts
+	first := &HostInfo{hostId: "preload", connectAddress: net.IPv4(10, 255, 255, 255), port: 9042}
+	for i, h := range s.Hosts {
+		info := &HostInfo{
+			hostId:         fmt.Sprintf("offer-%d", i),
+			connectAddress: net.IPv4(10, byte(h.ID>>16), byte(h.ID>>8), byte(h.ID)),
+			port:           9042,
+			state:          NodeUp,
+		}
+		if h.Down {
+			info.state = NodeDown
+		}
+		ids[info] = h.ID
+		if !h.NoPool {
+			p := &hostConnPool{host: info, size: 1}
+			if h.NoConn {
+				p.closed = true
+			} else {
+				p.conns = []*Conn{{host: info, streams: streams.New(4)}}
+			}
+			pcp.hostConnPools[info.hostId] = p
+			pools[info] = p
+		}
+		if h.InfoNil {
+			sel[i] = &verifC13Selected{info: nil, id: h.ID, s: s}
+		} else {
+			sel[i] = &verifC13Selected{info: info, id: h.ID, s: s}
+		}
+	}
+	pos := 0
+	next := func() SelectedHost {
+		if pos >= len(sel) {
+			if s.OnPick != nil {
+				s.OnPick(-1)
+			}
+			return nil
+		}
+		h := sel[pos]
+		pos++
+		if s.OnPick != nil {
+			s.OnPick(s.Hosts[pos-1].ID)
+		}
+		return h
+	}
+
+	var inner ExecutableQuery
+	var attempts func() int
+	var cons func() Consistency
+	if s.Batch {
+		b := NewBatch(LoggedBatch)
+		b.Query("verif")
+		b.Entries[0].Idempotent = s.Idempotent
+		b.rt = s.Retry
+		if s.Spec != nil {
+			b.spec = s.Spec
+		}
+		b.Cons = s.Consistency
+		b.context = s.Ctx
+		if s.InitialAttempts != 0 {
+			b.AddAttempts(s.InitialAttempts, first)
+		}
+		inner, attempts, cons = b, b.Attempts, b.GetConsistency
+	} else {
+		q := &Query{
+			stmt:        "verif",
+			cons:        s.Consistency,
+			rt:          s.Retry,
+			spec:        &NonSpeculativeExecution{},
+			idempotent:  s.Idempotent,
+			context:     s.Ctx,
+			metrics:     &queryMetrics{m: make(map[string]*hostMetrics)},
+			refCount:    1,
+			routingInfo: &queryRoutingInfo{},
+		}
+		if s.Spec != nil {
+			q.spec = s.Spec
+		}
+		if s.InitialAttempts != 0 {
+			q.AddAttempts(s.InitialAttempts, first)
+		}
+		inner, attempts, cons = q, q.Attempts, q.GetConsistency
+	}
+	vq := &verifC13Query{ExecutableQuery: inner, s: s, ids: ids, pools: pools}
+	ex := &queryExecutor{pool: pcp, policy: &verifC13Policy{next: next}}
+
+	var iter *Iter
+	var execErr error
+	if s.Direct {
+		iter = ex.do(vq.Context(), vq, next)
+	} else {
+		iter, execErr = ex.executeQuery(vq)
+	}
+	res := VerifC13Result{Host: -1, ExecErr: execErr, AttemptsNow: attempts}
+	if iter != nil {
+		res.Err = iter.err
+		if iter.host != nil {
+			if id, ok := ids[iter.host]; ok {
+				res.Host = id
+			}
+		}
+	}
+	res.Attempts = attempts()
+	res.Consistency = cons()
+	return res
+}
